@@ -70,6 +70,21 @@ CLAIMED = {
         "edge multiset and that graph dynamics equal grid dynamics is established by correspondence only (exhaustive on the bound), "
         "not yet by a theorem; the Python harness; g++ for the engine build.",
         "DESIGN.md section 6 / C15"),
+    "C17": (
+        "Coq proof of accessor agreement (row-major block/stride index lemmas) and look-up characterisations + exhaustive small-shape correspondence",
+        "Theorems (Props/C17.v, closed under the global context, all N,S,C): the per-sample state accessor, the per-cell trajectory "
+        "accessor, the whole-state accessor and direct indexing at n*S*C+s*C+c return the same element; the whole state is the "
+        "sample's contiguous block; the merged trajectory is the sum over cells; on non-decreasing sample times infeq returns the last "
+        "sample not after t (None iff empty or t before the first), supeq the first sample not before t (None iff empty or t after the "
+        "last), closest the nearer of the bracketing pair with ties to the earlier and the end samples outside the range. Tied to "
+        "rdoutput.py on every run: exhaustive over shapes N,S,C <= 4 (5 thorough) x grid/graph, every triple through every accessor "
+        "with species by index/label/object and cells by index/tuple/object, sample times with and without duplicates, queries "
+        "before/after/on/between samples in several time units; verdict in Coq (exact equality for reads).",
+        "Trusted: Coq kernel + VM; the hand-written model of the numpy reshape-based accessors (row-major) and of the three look-up "
+        "loops, tied by the exhaustive sweep on the stated bound; closest is claimed on strictly increasing times only (with duplicate "
+        "times 'ties to the earlier' is not meaningful); negative / out-of-range sample indices are not part of the statement; queries "
+        "in other time units are generated only where conversion rounding cannot flip the answer; the Python harness.",
+        "DESIGN.md section 6 / C17"),
 }
 
 NOT_YET = "check not built yet in this round (work in progress; see DESIGN.md section 9 for the order of work)"
